@@ -240,6 +240,106 @@ func c07BinOps(c *Ctx, p *Prog, fn *ssa.Function, dispatch ssa.Value) {
 		}
 		c.Check(order && okTok && okDiv, "C07-R2", key, p.pos(bo.Pos()), detail)
 	}
+	// the logical operators: %A is (x != 0 && y != 0), %O is (x != 0 || y != 0) over the two popped
+	// values (for %O the spelling x|y != 0 says the same; x&y != 0 is NOT %A: 1 and 2 are both true)
+	{
+		isPop := func(d deepInstr, v ssa.Value) ssa.Value {
+			b := d.bindVal(v)
+			if popIntResult(b) != nil {
+				return b
+			}
+			if ex, ok := b.(*ssa.Extract); ok {
+				if hc, isCall := ex.Tuple.(*ssa.Call); isCall {
+					if roles := popPairSummary(p, hc.Call.StaticCallee()); roles != nil && roles[ex.Index] != 0 {
+						return b
+					}
+				}
+			}
+			return nil
+		}
+		nonZeroOf := func(d deepInstr, v ssa.Value) ssa.Value { // v is `pop != 0`: the pop
+			bo, ok := v.(*ssa.BinOp)
+			if !ok || bo.Op != token.NEQ {
+				return nil
+			}
+			if k, isK := constInt(bo.Y); !isK || k != 0 {
+				return nil
+			}
+			return isPop(d, bo.X)
+		}
+		got := map[rune]string{}
+		for _, d := range deepInstrs(p, fn, 1, nil) {
+			d := d
+			v, isV := d.in.(ssa.Value)
+			if !isV {
+				continue
+			}
+			if bt, ok := v.Type().Underlying().(*types.Basic); !ok || bt.Kind() != types.Bool {
+				continue
+			}
+			var opByte rune = -1
+			for _, g := range rawGuardsAt(d.in.Block()) {
+				if cmp, ok := g.Cond.(*ssa.BinOp); ok && cmp.Op == token.EQL && g.Positive && (cmp.X == dispatch || d.bindVal(cmp.X) == dispatch) {
+					if k, ok := constInt(cmp.Y); ok {
+						opByte = rune(k)
+					}
+				}
+			}
+			if opByte != 'A' && opByte != 'O' {
+				continue
+			}
+			switch x := v.(type) {
+			case *ssa.Phi:
+				if x.Comment != "&&" && x.Comment != "||" {
+					continue
+				}
+				var pops []ssa.Value
+				okOps := true
+				for i, e := range x.Edges {
+					op := e
+					if _, isC := constBool(e); isC {
+						pr := x.Block().Preds[i]
+						iff, isIf := pr.Instrs[len(pr.Instrs)-1].(*ssa.If)
+						if !isIf {
+							okOps = false
+							continue
+						}
+						op = iff.Cond
+					}
+					if pv := nonZeroOf(d, op); pv != nil {
+						pops = append(pops, pv)
+					} else {
+						okOps = false
+					}
+				}
+				if okOps && len(pops) == 2 && pops[0] != pops[1] {
+					got[opByte] = x.Comment
+				} else if got[opByte] == "" {
+					got[opByte] = "?"
+				}
+			case *ssa.BinOp:
+				// (x | y) != 0
+				if x.Op != token.NEQ {
+					continue
+				}
+				if k, isK := constInt(x.Y); !isK || k != 0 {
+					continue
+				}
+				if inner, ok := x.X.(*ssa.BinOp); ok && (inner.Op == token.OR || inner.Op == token.AND) {
+					a, b := isPop(d, inner.X), isPop(d, inner.Y)
+					if a != nil && b != nil && a != b {
+						if inner.Op == token.OR {
+							got[opByte] = "||"
+						} else {
+							got[opByte] = "bitwise &"
+						}
+					}
+				}
+			}
+		}
+		c.Check(got['A'] == "&&", "C07-R2", "binop:%A", p.pos(fn.Pos()), fmt.Sprintf("%%A pushes (x != 0 && y != 0) of the two popped values (found: %q)", got['A']))
+		c.Check(got['O'] == "||", "C07-R2", "binop:%O", p.pos(fn.Pos()), fmt.Sprintf("%%O pushes (x != 0 || y != 0) of the two popped values (found: %q)", got['O']))
+	}
 	for r := range want {
 		if !seen[r] {
 			c.Fail("C07-R2", fmt.Sprintf("binop:%%%c", r), p.pos(fn.Pos()), "no handler of the form push(pop2 OP pop1) found for this operator")
